@@ -219,6 +219,13 @@ def run(ctx, chk):
                 chk.ok("C15.R1", unit, "cannot wrap for positions/lengths < 2^48 (assumption)", nontrivial=False)
                 continue
             ops = ",".join(v.split(" aff=")[-1].rstrip(">") if " aff=" in v else v for v in info["vals"][:2])
+            # a failing valuation that constrains only values kept in the assembler's own state (counters, map
+            # entries) and no part of the input text is not a failing INPUT: whether that state is reachable needs
+            # an invariant of the object, which this rule does not establish
+            atoms = set(re.findall(r"[A-Za-z_][A-Za-z_0-9]*(?:\[\d+\])?(?:\.[A-Za-z_0-9]+)+|num:[A-Za-z0-9_]+|len\([^)]*\)|tok[A-Za-z0-9_]*", ops))
+            if atoms and not any(a.startswith(("num:", "len(", "tok")) for a in atoms):
+                chk.undecided_("C15.R1", unit, f"fails only for stored state {sorted(atoms)} (no input text involved): needs a state invariant")
+                continue
             chk.violation("C15.R1", short, f"{akind.split('::')[-1] if akind.startswith('index:') else akind}({ops})",
                           f"{akind} can fail in {fnname} (context: {info['context']})", where_ or f"{file_of(fnname)}:{line}", info["witness"])
         else:
